@@ -27,6 +27,8 @@ def apply_step(net, a, last=False):
         net.switch.at[1, "closed"] = not bool(net.switch.at[1, "closed"])
     elif op == "toggleG":
         net.gen.at[0, "in_service"] = not bool(net.gen.at[0, "in_service"])
+    elif op == "toggleE":
+        net.ext_grid.at[0, "in_service"] = not bool(net.ext_grid.at[0, "in_service"])
     elif op == "load":
         net.load.at[1, "p_mw"] = 1.6 if net.load.at[1, "p_mw"] < 1.5 else 1.0
     else:
@@ -51,7 +53,7 @@ def apply_step(net, a, last=False):
     return None
 
 
-EDITS = ("toggleA", "toggleB", "load", "toggleG")
+EDITS = ("toggleA", "toggleB", "load", "toggleG", "toggleE")
 ACT = (("res_gen", "p_mw"), ("res_gen", "vm_pu"), ("res_line", "p_from_mw"), ("res_line", "p_to_mw"), ("res_trafo", "p_hv_mw"),
        ("res_ext_grid", "p_mw"), ("res_load", "p_mw"))
 ANG = (("res_gen", "va_degree"),)
@@ -74,12 +76,16 @@ def _flat(net, cols):
 def project(net, ok):
     conv = ok is True and bool(net.get("converged", False))
     if not conv:
-        return {"conv": False, "vm": [], "va": [], "p": [], "q": [], "act": [], "ang": [], "rea": [],
+        try:
+            fvm = [fx(x) for x in net.res_bus.vm_pu.values]        # what the failed call left in res_bus
+        except Exception:  # noqa
+            fvm = [-777]
+        return {"conv": False, "vm": [], "va": [], "p": [], "q": [], "act": [], "ang": [], "rea": [], "fvm": fvm,
                 "err": ok if isinstance(ok, str) else ""}
     rb = net.res_bus
     return {"conv": True, "vm": [fx(x) for x in rb.vm_pu.values], "va": [fx(x) for x in rb.va_degree.values],
             "p": [fx(x) for x in rb.p_mw.values], "q": [fx(x) for x in rb.q_mvar.values],
-            "act": _flat(net, ACT), "ang": _flat(net, ANG), "rea": _flat(net, REA), "err": ""}
+            "act": _flat(net, ACT), "ang": _flat(net, ANG), "rea": _flat(net, REA), "fvm": [], "err": ""}
 
 
 def observe(hist):
@@ -116,7 +122,7 @@ def run(tier, seed, replay=None):
             with open(os.path.join(SPEC_DIR, "History.cfg")) as fh:
                 cfg = fh.read()
                 if tier == "thorough":
-                    cfg = re.sub(r"UseOps = .*", 'UseOps = {"toggleA", "toggleB", "load", "toggleG", "runpp", "rundcpp", "runopp", '
+                    cfg = re.sub(r"UseOps = .*", 'UseOps = {"toggleA", "toggleB", "load", "toggleG", "toggleE", "runpp", "rundcpp", "runopp", '
                                  '"calc_sc", "runpp_3ph"}', cfg)
                     cfg = re.sub(r"UseInits = .*", 'UseInits = {"auto", "flat", "dc", "results"}', cfg)
             with open(os.path.join(wd, "History.cfg"), "w") as fh:
@@ -158,8 +164,8 @@ def run(tier, seed, replay=None):
         "rule": "every history of <=4 steps over %s that ends in a power flow; the last step is also run on a deep copy "
                 "and on a freshly built net with the same element state; non-trivial = >=1 edit and >=1 earlier "
                 "calculation before the last step" % (
-                    "{toggle sA, toggle sB, change load, toggle gen, runpp(init auto/results), rundcpp, runopp}" if tier == "quick" else
-                    "{toggle sA, toggle sB, change load, toggle gen, runpp(init auto/flat/dc/results), rundcpp, runopp, calc_sc, runpp_3ph}"),
+                    "{toggle sA, toggle sB, change load, toggle gen, toggle ext_grid, runpp(init auto/results), rundcpp, runopp}" if tier == "quick" else
+                    "{toggle sA, toggle sB, change load, toggle gen, toggle ext_grid, runpp(init auto/flat/dc/results), rundcpp, runopp, calc_sc, runpp_3ph}"),
         "live_converged": sum(c["live"]["conv"] for c in cases),
         "samples": [cases[k] for k in range(5, len(cases), max(1, len(cases) // 3))][:3],
     }
